@@ -551,3 +551,55 @@ def set_contract_version(I, c):
     st = I.world.store(storage_key(c.args[0]))
     st['contract_info'] = St('ContractVersion', [deref(c.args[1]), deref(c.args[2])], ['contract', 'version'])
     return Ok(UNIT)
+
+
+# ----------------------------------------------------------------- cosmwasm_std::Coins (a BTreeMap<denom, Coin>: sorted by denom, amounts merged, zero coins dropped)
+
+def _coins_of(v):
+    v = deref(v)
+    if not (isinstance(v, St) and v.short == 'Coins'):
+        raise Unsupported('Coins value expected, got %r' % (v,))
+    return v
+
+
+@model_re(r'^Coins::add$')
+def coins_add(I, c):
+    cs = _coins_of(c.args[0])
+    coin = deref(c.args[1])
+    amt = coin.get('amount')
+    if I.fork(smt.Eq(amt, 0)):
+        return Ok(UNIT)
+    d = coin.get('denom')
+    if not isinstance(d, str):
+        raise Unsupported('Coins::add with a symbolic denom')
+    lst = cs.f[0].e
+    for x in lst:
+        if x.get('denom') == d:
+            tot = simp(x.get('amount') + amt)
+            if I.fork(tot >= (1 << 128)):
+                return Err(En('StdError', 'Overflow', [Opaque('overflow')]))
+            x.set('amount', tot)
+            return Ok(UNIT)
+    lst.append(clone(coin))
+    lst.sort(key=lambda x: x.get('denom'))
+    return Ok(UNIT)
+
+
+@model_re(r'^Coins::(into_vec|to_vec)$')
+def coins_into_vec(I, c):
+    return Vc([clone(x) for x in _coins_of(c.args[0]).f[0].e])
+
+
+@model_re(r'^Coins::(is_empty|len)$')
+def coins_len(I, c):
+    n = len(_coins_of(c.args[0]).f[0].e)
+    return n == 0 if c.method == 'is_empty' else n
+
+
+@model_re(r'^Coins::amount_of$')
+def coins_amount_of(I, c):
+    d = deref(c.args[1])
+    for x in _coins_of(c.args[0]).f[0].e:
+        if x.get('denom') == d:
+            return x.get('amount')
+    return 0
